@@ -230,7 +230,7 @@ func historyNontrivial(hh history) bool {
 
 // TestC20Exhaustive: all sequences of up to k actions over the alphabet.
 func TestC20Exhaustive(t *testing.T) {
-	k := h.N(4, 5)
+	k := h.N(4, 6)
 	run := h.Begin("C20", "exhaustive", fmt.Sprintf("bounded-exhaustive: every history of 1..%d operations over a %d-operation alphabet {SetThis(A|B|nil), SetThisValue(x|$a), Resolve of 4 pool formulas that read and assign locals and fields, Set(x|$a), Get(x|$a)} on one runner, with keys shared between the two caller maps and the auxiliary store; oracle: a model with 'this' as a reference to caller map A, B, a runner-created map or nothing, and a separate auxiliary map - every Resolve result and every Get must match, and the caller maps must equal the model's after every step; non-trivial: a local surviving to a later evaluation, a map replacement that hides or restores a local, SetThisValue on a map-less runner, or a key present in both stores", k, len(c20Alphabet)))
 	defer run.End(t)
 	enumSeq(len(c20Alphabet), k, func(seq []int) {
@@ -262,7 +262,7 @@ func TestC20Exhaustive(t *testing.T) {
 func TestC20Random(t *testing.T) {
 	run := h.Begin("C20", "random", "rapid: histories of 1-14 operations drawn from the same operation kinds with random keys {x, k, $a, $b}, random values and the 12-formula pool; same oracle; non-trivial as in the exhaustive part; distinct by history")
 	defer run.End(t)
-	h.RapidSetup(h.N(6000, 500000), "c20rand")
+	h.RapidSetup(h.N(6000, 2000000), "c20rand")
 	rapid.Check(t, func(rt *rapid.T) {
 		n := rapid.IntRange(1, 14).Draw(rt, "n")
 		var hh history
